@@ -248,6 +248,8 @@ class Facts:
         self.fns = collections.defaultdict(list)   # qualified name -> [Fn]
         self.globals = {}
         self.records = {}
+        self.enums = {}          # enumerator name -> value (all enums of the repository files)
+        self.enum_names = collections.defaultdict(dict)   # enum qualified name -> {enumerator: value}
         self.units = []
         self._ir = None
         seen = set()
@@ -265,6 +267,10 @@ class Facts:
                 self.globals.setdefault((g['name'], g['loc']), g)
             for r in d['records']:
                 self.records.setdefault(r['name'], r)
+            for en in d.get('enums', []):
+                for n, v in en['consts'].items():
+                    self.enums.setdefault(n, v)
+                    self.enum_names[en['name']][n] = v
 
     def fn(self, name, sig_contains=None, required=True):
         """the unique function with that qualified name (optionally filtered by a substring of its type)"""
